@@ -255,6 +255,18 @@ def run(a, res):
                 res.count("closed_before_first_response")
         return outcome, (info, len(got), len(exp))
 
+    confirmed = set()
+
+    def classify(c, pf, info):
+        key = "hang:pipeline-stalled"
+        stalled_slot = info[1] - 1 if "mid-body" in info[0] else info[1]
+        us = [q["u"] for q in c["reqs"]]
+        if "origin still waits" in info[0]:
+            key = "hang:origin-awaits-undeclared-body"
+        elif pf > 0 and 0 <= stalled_slot < len(us) and us[stalled_slot] in us[stalled_slot + 1:] and c["urls"][us[stalled_slot]]["kind"] != "nostore":
+            key = "hang:same-url-later-in-pipeline"
+        return key
+
     def make_one(lab, pf):
         def one(c):
             if c["prefetch"] != pf:
@@ -263,17 +275,19 @@ def run(a, res):
             outcome, info = attempt_case(lab, c, 0)
             if outcome == "stall":
                 res.count("stall_first_attempt")
+                key = classify(c, pf, info)
+                if key in confirmed and not a.replay_data:
+                    # the same class of stall was already reproduced in this run: do not pay the re-run again
+                    res.count("stall_same_class_as_confirmed:" + key)
+                    return
                 outcome2, info2 = attempt_case(lab, c, 1)
                 if outcome2 == "stall":
-                    key = "hang:pipeline-stalled"
-                    stalled_slot = info2[1] - 1 if "mid-body" in info2[0] else info2[1]
-                    us = [q["u"] for q in c["reqs"]]
-                    if "origin still waits" in info2[0]:
-                        key = "hang:origin-awaits-undeclared-body"
-                    elif pf > 0 and 0 <= stalled_slot < len(us) and us[stalled_slot] in us[stalled_slot + 1:] and c["urls"][us[stalled_slot]]["kind"] != "nostore":
-                        key = "hang:same-url-later-in-pipeline"
-                    res.violation(key, f"prefetch {pf}: {info2[0]} (answered {info2[1]}/{info2[2]}), reproduced on re-run; methods={[q['method'] for q in c['reqs']]}",
-                                  {"seed": c["seed"], "case": c["n"]})
+                    key = classify(c, pf, info2)
+                    confirmed.add(key)
+                    res.violation(key, f"prefetch {pf}: {info2[0]} (answered {info2[1]}/{info2[2]}), reproduced on re-run; methods={[q['method'] for q in c['reqs']]} "
+                                       f"urls={[q['u'] for q in c['reqs']]}", {"seed": c["seed"], "case": c["n"]})
+                else:
+                    res.count("stall_not_reproduced")
                 outcome, info = outcome2, info2
             if outcome in ("ok", "closed"):
                 hits = sum(1 for q in c["reqs"] if c["urls"][q["u"]]["kind"] == "hit")
